@@ -265,6 +265,14 @@ RECEIVERS = {'StrType': "'a b c'", 'ListType': '[3, 1, 2]', 'DictType': "{'a': 1
 METHOD_ARGS = ['', "'a'", '1', '[4]', "'a', 'b'", '0, 9', "{'z': 3}", "'a', 1"]
 
 
+NESTED_CONTAINERS = ["[{'title': 'Dune', 'price': 9.5}, {'title': 'Emma', 'price': 7.0}]", "{'first': {'n': 1, 's': 'x'}}", "[{'k': 1}]", "[(1, 'a'), (2, 'b')]",
+                     "{1: 'a', 'b': 2.5}", '[[1, 2], []]', '[{}]', "({'x': 1, 'y': 'z'},)", '{(1, 2): [1.5]}', '[None, 1]', "{'s': {1, 2}, 't': [1]}",
+                     "{'a': 1, 'b': 2}", "[{'name': 'x', 'tags': ['a'], 'n': None}]", "{'rows': [{'id': 1, 'ok': True}]}", '[[{1: 2.5, 2: "s"}]]']
+MISUSES = ["result = 'text: ' + VALUE\nprint(result)", 'result = VALUE + 1\nprint(result)', 'print(VALUE < 3)', 'VALUE()', "print(len(VALUE) + 'a')",
+           'for item in VALUE:\n    print(item + 1)', 'print(-VALUE)', "print(VALUE[0] + 'x')", 'def use(p: int):\n    return p\nuse(VALUE)',
+           'def give() -> str:\n    return VALUE\nprint(give())', 'print(1 in VALUE + 1)']
+
+
 def sweep(tier):
     from pedal.types import builtin as B
     from pedal.types import new_types as NT
@@ -288,6 +296,14 @@ def sweep(tier):
                        'tag': 'method=%s.%s' % (tname, m)}
             # the same method on the literal itself, result thrown away, messages rendered by the HTML formatter
             yield {'code': '%s.%s(%s)\n' % ('(5)' if lit == '5' else lit, m, METHOD_ARGS[1]), 'must_complete': True, 'tag': 'method=%s.%s' % (tname, m), 'html': True}
+    # type errors that make TIFA put the name of a (nested) container type into a message
+    for c_i, container in enumerate(NESTED_CONTAINERS):
+        for m_i, misuse in enumerate(MISUSES):
+            code = 'value = %s\n%s\n' % (container, misuse.replace('VALUE', 'value'))
+            case = {'code': code, 'must_complete': True, 'tag': 'type-name=%d' % c_i}
+            if (c_i + m_i) % 2:
+                case['html'] = True
+            yield case
     extra = ['import math\nprint(math.sqrt(2), math.pi, math.floor(2.5))\n', 'import random\nprint(random.randint(1, 6))\n',
              'import string\nprint(string.ascii_letters)\n', 'import sys\nsys.stdout.write("x")\n', 'from math import *\nprint(sqrt(4))\n',
              'import os\nprint(os.getcwd())\n', 'x = [1, 2, 3]\nfor i, v in enumerate(x):\n    print(i, v)\n',
